@@ -58,27 +58,44 @@ def judge(ctx, designs, evals, res, known, nontrivial, tag):
             ctx.sample({"design": d["id"], "ops": len(obs["srvOps"]), "doc3": len(obs["doc3"]), "doc2": len(obs["doc2"]), "verdicts": obs["verdicts"]})
         for tb, k, f, o, p in diffs:
             item = (tb, k, f)
-            key = None
+            keys = []
             if oc.item_of(predK, item) == o:
-                # explained by the recorded findings: name those that matter for this item
-                for dv in sorted(K):
-                    if oc.item_of(oc.predicted_tables(evals[(d["id"], K - {dv})]), item) != o:
-                        key = dv
-                        break
-            if key is None:
+                # explained by the recorded findings: name every one that matters for this item
+                keys = [dv for dv in sorted(K) if oc.item_of(oc.predicted_tables(evals[(d["id"], K - {dv})]), item) != o]
+                if not keys:      # several recorded findings each suffice
+                    keys = [dv for dv in sorted(K) if oc.item_of(oc.predicted_tables(evals[(d["id"], frozenset([dv]))]), item) == o][:1] or sorted(K)[:1]
+            else:
                 for dv in oc.DEVIATIONS:
                     if dv not in K and oc.item_of(oc.predicted_tables(evals[(d["id"], K | {dv})]), item) == o:
-                        key = dv
+                        keys = [dv]
                         break
-            if key is None:
-                for dv in oc.DEVIATIONS:
-                    if oc.item_of(oc.predicted_tables(evals[(d["id"], frozenset([dv]))]), item) == o:
-                        key = dv
-                        break
+                if not keys:
+                    for a, b in oc.INTERACT:
+                        if oc.item_of(oc.predicted_tables(evals[(d["id"], K | {a, b})]), item) == o:
+                            keys = [x for x in (a, b) if x not in K][:1]
+                            break
+                if not keys:
+                    for dv in oc.DEVIATIONS:
+                        if oc.item_of(oc.predicted_tables(evals[(d["id"], frozenset([dv]))]), item) == o:
+                            keys = [dv]
+                            break
             show = og.show_key(k) if tb != "verdicts" else k
             desc = "%s design %s, table %s, %s, %s: observed %s, design says %s" % (tag, d["id"], tb, show, f, fmt(o), fmt(p))
-            ctx.violation(key or classify(item, o, p), ("[named deviation] " if key else "") + desc,
-                          {"design": d, "table": tb, "item": show, "field": f, "observed": fmt(o), "expected": fmt(p)})
+            for key in keys or [None]:
+                ctx.violation(key or classify(item, o, p), ("[named deviation] " if key else "") + desc,
+                              {"design": d, "table": tb, "item": show, "field": f, "observed": fmt(o), "expected": fmt(p)})
+
+
+def extra_known(ctx):
+    """Testing aid: VERIF_KNOWN_EXTRA names a file in the known_findings.txt format whose `known:` lines for this
+    property are honoured in addition (to try proposed lines before they are recorded)."""
+    p = os.environ.get("VERIF_KNOWN_EXTRA")
+    if p and os.path.exists(p):
+        import re
+        for line in open(p):
+            m = re.match(r"known:\s+property=(\S+)\s+key=(\S+)\s*(.*)$", line.strip())
+            if m and m.group(1) == ctx.prop:
+                ctx.known[m.group(2)] = m.group(3)
 
 
 def fmt(x):
@@ -95,6 +112,8 @@ def devsets(known):
     for d in oc.DEVIATIONS:
         sets.add(frozenset([d]))
         sets.add(K - {d} if d in K else K | {d})
+    for a, b in oc.INTERACT:
+        sets.add(K | {a, b})
     return sorted(sets, key=lambda s: (len(s), sorted(s)))
 
 
@@ -108,6 +127,7 @@ def run(ctx):
                         "OpenAPI 3.0.x cannot express CONNECT, 2.0 neither TRACE nor cookie parameters, bearer schemes or scopes outside oauth2: compared modulo these",
                         "an Authorization header is described by the security scheme and not compared as a parameter",
                         "file-server operations are compared through the documented folding (directory = two mounted patterns = one operation)"]
+    extra_known(ctx)
     known = [d for d in oc.DEVIATIONS if d in ctx.known]
     # (M) + vacuity guard
     for fam in oc.FAMILIES:
@@ -116,7 +136,8 @@ def run(ctx):
         ctx.mc("mc/MC_OpenAPIOps", consts={"OFamily": '"mix"', "NSvc": 1, "NMeth": 1}, label="MC mix 1x1", timeout=1500)
     witness = {"schema.exclusive_bound_numeric": "params", "v3.trace_route_dropped": "verbs", "v3.nosecurity_inherits_api_security": "sec",
                "v3.fileserver_documents_api_security": "files", "v3.api_security_scheme_undefined": "sec", "v3.fileserver_wildcard_kept": "files",
-               "v3.fileserver_param_without_schema": "files", "v3.allow_empty_value_not_query": "params", "yaml.leading_newline_dropped": "sec"}
+               "v3.fileserver_param_without_schema": "files", "v3.allow_empty_value_not_query": "params", "yaml.leading_newline_dropped": "sec",
+               "server.required_cookie_resets_errors": "params"}
     for d in oc.DEVIATIONS:
         ctx.mc_expect_violation("mc/MC_OpenAPIOps", consts={"OFamily": '"%s"' % witness[d], "Deviations": '{"%s"}' % d}, label="MC dev " + d)
     # (G) enumerated designs
@@ -129,10 +150,10 @@ def run(ctx):
         small = [d for d in small if rnd.random() < frac]
     designs = og.pack(small)
     # (J) random larger designs
-    nrand = 6 if quick else 40
+    nrand = 6 if quick else 45
     rand = []
     for nsvc, nmeth in ((2, 2), (3, 1), (1, 3)):
-        rand += oc.enumerate_designs(ctx, "mix", nsvc, nmeth, simulate=max(2, nrand // 3), depth=60)
+        rand += oc.enumerate_designs(ctx, "mix", nsvc, nmeth, simulate=nrand // 3, depth=60)
     designs += rand
     for i, d in enumerate(designs):
         d["id"] = "d%d" % i
@@ -183,6 +204,7 @@ def replay(ctx, rp):
     case = rp["case"]
     d = case["design"]
     d["id"], d["devs"] = "d0", []
+    extra_known(ctx)
     known = [x for x in oc.DEVIATIONS if x in ctx.known]
     evals = oc.evaluate(ctx, [d], devsets(known))
     res = oc.run_designs(ctx, [d], [oc.eff_map(d, evals[("d0", frozenset())])])
